@@ -1,3 +1,139 @@
 import Srctools.Wire
-/-! stub driver (echo) — replaced when the property's model exists. -/
-def main : IO Unit := Wire.main fun j => pure j
+import Srctools.Model.C12
+import Srctools.Gen.Save
+/-! Driver for the AtomicWriter model (C12).
+
+names     : [0,k] = file k, [1,n] = tmp_n
+faults    : 0 none, 1 eexist (FileExistsError), 2 enoent (FileNotFoundError), 3 eio (other OSError)
+script    : [["w",[byte…]], ["s",pos], …]
+writer    : {"dest":name,"script":…,"exc":null|k}
+requests
+  {"op":"impl"}                                     → {"impl":[exclusive,closeGuard,replaceGuard,start]}   (Gen.Save.impl)
+  {"op":"run","impl":null|[b,b,b,n],"w":writer,"fs":[[name,[byte…]]…],"full":bool,
+   "queries":[{"plan":[fault…],"k":null|steps}…]}
+      → {"r":[{"trace":[[op,n,arg,res]…],"out":null|0|1|2,"pc":str,"dir":[[name,len,hash,null|[byte…]]…]}…]}
+  {"op":"run2","impl":…,"w1":writer,"w2":writer,"fs":…,"full":bool,"queries":[{"sched":[[who,fault]…]}…]}
+      → {"r":[{"trace":[[who,op,n,arg,res]…],"out1":…,"out2":…,"dir":…}…]}
+event op codes: 0 mkdir 1 create 2 write 3 seek 4 close 5 replace 6 unlink; res: 0 ok 1 eexist 2 enoent 3 err;
+outcome: 0 ok, 1 raised by the body, 2 raised OSError.
+-/
+open Lean C12
+
+def nameOf (j : Json) : Except String C12.Name := do
+  let a ← j.getArr?
+  if a.size != 2 then throw "name: need [tag, index]"
+  let t ← (a[0]!).getNat?
+  let k ← (a[1]!).getNat?
+  pure (if t == 0 then .file k else .tmp k)
+
+def nameJson : C12.Name → Json
+  | .file k => Wire.ofNatList [0, k]
+  | .tmp n => Wire.ofNatList [1, n]
+
+def faultOf (n : Nat) : Fault :=
+  match n with
+  | 0 => .none | 1 => .eexist | 2 => .enoent | _ => .eio
+
+def bopOf (j : Json) : Except String BOp := do
+  let a ← j.getArr?
+  if a.size != 2 then throw "bop: need [kind, arg]"
+  let k ← (a[0]!).getStr?
+  if k == "w" then pure (.write (← Wire.natList (a[1]!)))
+  else if k == "s" then pure (.seek (← (a[1]!).getNat?))
+  else throw s!"bop: unknown kind {k}"
+
+def implOf (j : Json) : Except String Impl := do
+  if j.isNull then pure Gen.Save.impl else
+  let a ← j.getArr?
+  if a.size != 4 then throw "impl: need [exclusive, closeGuard, replaceGuard, start]"
+  pure { exclusive := ← (a[0]!).getBool?, closeGuard := ← (a[1]!).getBool?,
+         replaceGuard := ← (a[2]!).getBool?, start := ← (a[3]!).getNat? }
+
+def cfgOf (impl : Impl) (j : Json) : Except String Cfg := do
+  let dest ← nameOf (← j.getObjVal? "dest")
+  let sc ← (← j.getObjVal? "script").getArr?
+  let script ← sc.toList.mapM bopOf
+  let e ← j.getObjVal? "exc"
+  let exc ← if e.isNull then pure none else do pure (some (← e.getNat?))
+  pure { impl, dest, script, bodyExc := exc }
+
+def fsOf (j : Json) : Except String FS := do
+  let a ← j.getArr?
+  let l ← a.toList.mapM fun p => do
+    let q ← p.getArr?
+    if q.size != 2 then throw "fs: need [name, bytes]"
+    pure (← nameOf (q[0]!), ← Wire.natList (q[1]!))
+  -- later entries win, as `put` does
+  pure (l.foldl (fun fs p => put fs p.1 p.2) [])
+
+def hashBytes (b : Bytes) : Nat := b.foldl (fun h x => (h * 31 + x + 1) % 4294967296) 7
+
+def dirJson (full : Bool) (fs : FS) : Json :=
+  Json.arr (fs.map fun p =>
+    Json.arr #[nameJson p.1, Json.num (JsonNumber.fromNat p.2.length), Json.num (JsonNumber.fromNat (hashBytes p.2)),
+               if full then Wire.ofNatList p.2 else Json.null]).toArray
+
+def opCode : Op → List Nat
+  | .mkdir => [0, 0, 0]
+  | .create n => [1, n, 0]
+  | .write n l => [2, n, l]
+  | .seek n p => [3, n, p]
+  | .close n => [4, n, 0]
+  | .replace n => [5, n, 0]
+  | .unlink n => [6, n, 0]
+
+def resCode : Res → Nat
+  | .ok => 0 | .eexist => 1 | .enoent => 2 | .err => 3
+
+def outCode : Outcome → Nat
+  | .ok => 0 | .raisedBody => 1 | .raisedOS => 2
+
+def outJson : PC → Json
+  | .done o => Json.num (JsonNumber.fromNat (outCode o))
+  | _ => Json.null
+
+def eventJson (e : Event) : Json := Wire.ofNatList (opCode e.op ++ [resCode e.res])
+
+def handle (j : Json) : Except String Json := do
+  let op ← j.getObjValAs? String "op"
+  match op with
+  | "impl" =>
+    let i := Gen.Save.impl
+    pure (Json.mkObj [("impl", Json.arr #[Json.bool i.exclusive, Json.bool i.closeGuard, Json.bool i.replaceGuard,
+                                          Json.num (JsonNumber.fromNat i.start)])])
+  | "run" =>
+    let impl ← implOf (← j.getObjVal? "impl")
+    let cfg ← cfgOf impl (← j.getObjVal? "w")
+    let fs ← fsOf (← j.getObjVal? "fs")
+    let full ← j.getObjValAs? Bool "full"
+    let qs ← (← j.getObjVal? "queries").getArr?
+    let rs ← qs.toList.mapM fun q => do
+      let plan := (← Wire.natList (← q.getObjVal? "plan")).map faultOf
+      let kj ← q.getObjVal? "k"
+      let k ← if kj.isNull then pure (fuelFor cfg plan fs) else kj.getNat?
+      let s := run cfg k plan (St.init fs)
+      pure (Json.mkObj [("trace", Json.arr (s.trace.reverse.map eventJson).toArray),
+                        ("out", outJson s.pc), ("pc", Json.str (reprStr s.pc)), ("dir", dirJson full s.fs)])
+    pure (Json.mkObj [("r", Json.arr rs.toArray)])
+  | "run2" =>
+    let impl ← implOf (← j.getObjVal? "impl")
+    let c1 ← cfgOf impl (← j.getObjVal? "w1")
+    let c2 ← cfgOf impl (← j.getObjVal? "w2")
+    let fs ← fsOf (← j.getObjVal? "fs")
+    let full ← j.getObjValAs? Bool "full"
+    let qs ← (← j.getObjVal? "queries").getArr?
+    let rs ← qs.toList.mapM fun q => do
+      let sj ← (← q.getObjVal? "sched").getArr?
+      let sched ← sj.toList.mapM fun e => do
+        let p ← Wire.natList e
+        match p with
+        | [w, f] => pure (w != 0, faultOf f)
+        | _ => throw "sched: need [who, fault]"
+      let s := run2 c1 c2 sched (Sys.init fs)
+      pure (Json.mkObj [("trace", Json.arr (s.trace.reverse.map fun e =>
+                          Wire.ofNatList ((if e.1 then 1 else 0) :: opCode e.2.op ++ [resCode e.2.res])).toArray),
+                        ("out1", outJson s.pc1), ("out2", outJson s.pc2), ("dir", dirJson full s.fs)])
+    pure (Json.mkObj [("r", Json.arr rs.toArray)])
+  | _ => throw s!"unknown op {op}"
+
+def main : IO Unit := Wire.main handle
